@@ -124,13 +124,24 @@ def run(ck):
                          {"failing_input_found": True, "program": progs[cid], "quad_checks": list(pr)}, key=f"cancel:{pr[0]}{pr[1]}")
         elif verd.get(cid, "").startswith("ERROR"):
             raise BuildError("C09 real-prover second opinion failed: " + verd[cid])
+    # layout-agnostic adversarial fill: on whatever rows the real code emitted, give every chain cell the
+    # unmasked shift of the (out-of-range) value, so the excess lands in the first cell of the chain
+    for name, m in list(meta.items()):
+        if name not in impl or m[0] == "cancelling quads": continue
+        kind, w, v = m
+        width = w if kind != "pairs" else min(2 * w, 256)
+        if not (0 < width <= 254) or v < (1 << width) or kind == "pairs": continue
+        snap = Snapshot(impl[name])
+        w2 = composer.rewitness(snap, snap.wits, frozen={6}, first_new=7, overflow=True)
+        jobs.append((name + "_ovf", snap, w2)); expect[name + "_ovf"] = False
+        ck.count(("ovf", w, v), kind="template: excess pushed into the first chain cell (layout-agnostic)")
     res = composer.model_sat(jobs, "c09_sat")
     mism = [(n, expect[n], res.get(n, "?")) for n in expect if (res.get(n, "?") is None) != expect[n]]
     for n, e, r_ in mism[:1]:
-        base = n.replace("_alias", "")
+        base = n.replace("_alias", "").replace("_ovf", "")
         if ck.violations: break
         ck.violation(f"range exactness fails on the real layout: program {base} meta={meta[base]} expected satisfiable={e}, extracted evaluator: first bad row={r_}",
-                     {"failing_input_found": True, "program": progs[base], "template": "alias" if n.endswith("_alias") else "honest", "expected_sat": e},
+                     {"failing_input_found": True, "program": progs[base], "template": "alias" if n.endswith("_alias") else "excess in first chain cell" if n.endswith("_ovf") else "honest", "expected_sat": e},
                      key=f"exact:{meta[base][0]}:{meta[base][1]}")
     if ep_bad and not mism:
         ck.violation(f"entry points emit different gates for pairs={ep_bad[:5]}", {"failing_input_found": True, "pairs": ep_bad[:5], "program": progs[f"rp{ep_bad[0]}_0"]})
